@@ -112,7 +112,13 @@ func runC14(rc *RunCtx) {
 		rc.D("target %d port %d reply=%d delay=%v", i, port, t.reply, t.delay)
 	}
 	nC := 1 + G.Draw(4)
-	gaps := []time.Duration{0, time.Millisecond, T / 2, T - time.Millisecond, T, T + time.Millisecond, dnsT - time.Millisecond, dnsT, dnsT + time.Millisecond, 2 * T, 3 * dnsT}
+	// "torn down within bounded time", "right after", "promptly": the lower bounds
+	// of the statement are exact, the upper ones get an explicit bound B (a
+	// reclamation that is not driven by a per-socket deadline, e.g. a periodic
+	// sweep, is as good). A datagram arriving within B after a deadline makes that
+	// association don't-care.
+	B := time.Second + T/10
+	gaps := []time.Duration{0, time.Millisecond, T / 2, T - time.Millisecond, T, T + time.Millisecond, T + B + time.Millisecond, dnsT - time.Millisecond, dnsT, dnsT + time.Millisecond, dnsT + B + time.Millisecond, 2*T + B, 3*dnsT + B}
 	var sends []*c14send
 	clients := make([]*simnet.UDPConn, nC)
 	for c := 0; c < nC; c++ {
@@ -260,7 +266,7 @@ func runC14(rc *RunCtx) {
 				}
 				a.why = "listener shutdown"
 			}
-			if now > a.D+skew {
+			if now > a.D+skew+B {
 				a.ended = true
 				delete(live, c)
 			}
@@ -273,7 +279,7 @@ func runC14(rc *RunCtx) {
 			c := e.send.client
 			a := live[c]
 			if a != nil && e.at >= a.D {
-				a.fuzzy = true // arrived within [D, D+skew]: either outcome is fine
+				a.fuzzy = true // arrived within [D, D+skew+B]: either outcome is fine
 				rc.Probe("datagram_at_deadline_instant")
 			}
 			to := T
@@ -332,6 +338,42 @@ func runC14(rc *RunCtx) {
 	if len(assocs) > 0 {
 		rc.Nontrivial = true
 	}
+	// "its deadline never moves earlier": the read deadlines set on each outbound
+	// socket only grow, except for the fast close (the second deadline ever set on
+	// the socket, set to "now" after a response from a DNS server was read, the
+	// socket's first forward having been a DNS query) and for the listener's
+	// shutdown. Vacuous for an implementation that does not keep its deadline on
+	// the socket.
+	for _, sk := range outSocks {
+		firstDNS, haveFirst := false, false
+		for _, d := range w.Dgrams {
+			if d.FromSock == sk {
+				firstDNS, haveFirst = d.To.Port == 53, true
+				break
+			}
+		}
+		cur := time.Duration(-1)
+		for i, r := range sk.DlLog {
+			if r.T >= 0 && cur >= 0 && r.T < cur {
+				legit := shutdownAt >= 0 && r.At >= shutdownAt
+				if i == 1 && r.T <= r.At+skew && (firstDNS || !haveFirst) {
+					for j, rec := range sk.ReadLog {
+						if sk.ReadSeqs[j] < r.Seq && rec.From.Port == 53 {
+							legit = true
+						}
+					}
+				}
+				if !legit {
+					rc.Failf("deadline-moved-earlier", "outbound socket %v: read deadline moved from %v to %v at %v (deadline #%d set on the socket; %d datagrams read before; first forward DNS=%v; shutdown at %v)", sk.LocalAddr(), cur, r.T, r.At, i+1, len(sk.ReadLog), firstDNS, shutdownAt)
+				} else {
+					rc.Probe("deadline_moved_earlier_legitimately")
+				}
+			}
+			if r.T >= 0 {
+				cur = r.T
+			}
+		}
+	}
 	fuzzyAny := false
 	for _, a := range assocs {
 		if a.fuzzy {
@@ -381,7 +423,7 @@ func runC14(rc *RunCtx) {
 			rc.Failf("socket-never-closed", "association %d (client %d): deadline %v (%s) passed, the system is idle at %v, but the outbound socket is still open", i, a.client, a.D, a.why, end)
 			continue
 		}
-		lo, hi := a.D, a.D+skew
+		lo, hi := a.D, a.D+skew+B
 		if sk.ClosedAt < lo || sk.ClosedAt > hi {
 			kind := "late"
 			if sk.ClosedAt < lo {
@@ -393,14 +435,14 @@ func runC14(rc *RunCtx) {
 			} else if a.why == "listener shutdown" {
 				what = "shutdown"
 			}
-			rc.Failf("teardown-"+kind+":"+what, "association %d (client %d, created %v, %d client datagrams, first DNS=%v): outbound socket closed at %v, expected %v (%s; NAT timeout %v, clock skew %v)", i, a.client, a.created, a.writes, a.firstDNS, sk.ClosedAt, a.D, a.why, T, skew)
+			rc.Failf("teardown-"+kind+":"+what, "association %d (client %d, created %v, %d client datagrams, first DNS=%v): outbound socket closed at %v, expected within [%v, %v] (%s; NAT timeout %v, clock skew %v, bound %v)", i, a.client, a.created, a.writes, a.firstDNS, sk.ClosedAt, lo, hi, a.why, T, skew, B)
 		}
 		nrem := 0
 		for _, c := range rec.Calls {
 			if c.Kind == "remove" {
 				nrem++
 				if c.At < lo || c.At > hi {
-					rc.Failf("removal-report-time", "association %d: removal reported at %v, deadline %v", i, c.At, a.D)
+					rc.Failf("removal-report-time", "association %d: removal reported at %v, expected within [%v, %v]", i, c.At, lo, hi)
 				}
 			}
 		}
